@@ -60,8 +60,25 @@ func (d Matches) Less(i, j int) bool {
 	if di.StartTokenIndex != dj.StartTokenIndex {
 		return di.StartTokenIndex < dj.StartTokenIndex
 	}
-	// Should never get here, but tiebreak based on the larger license.
-	return di.EndTokenIndex > dj.EndTokenIndex
+	// Tiebreak based on the larger license.
+	if di.EndTokenIndex != dj.EndTokenIndex {
+		return di.EndTokenIndex > dj.EndTokenIndex
+	}
+	// Fall back to the remaining fields so that the order is total and the
+	// output does not depend on map iteration order.
+	if di.StartLine != dj.StartLine {
+		return di.StartLine < dj.StartLine
+	}
+	if di.EndLine != dj.EndLine {
+		return di.EndLine < dj.EndLine
+	}
+	if di.MatchType != dj.MatchType {
+		return di.MatchType < dj.MatchType
+	}
+	if di.Name != dj.Name {
+		return di.Name < dj.Name
+	}
+	return di.Variant < dj.Variant
 }
 
 // Match reports instances of the supplied content in the corpus.
